@@ -65,7 +65,26 @@ def parse_classes(text):
         e = match(text, m.end() - 1, "{", "}")
         body = text[m.end():e]
         members, methods = [], {}
-        for stmt in re.split(r";", re.sub(r"\b(public|private|protected)\s*:", "", body)):
+        body = re.sub(r"\b(public|private|protected)\s*:", "", body)
+        # anonymous aggregate members:  struct { ... } name;
+        while True:
+            ma = re.search(r"\b(struct|union)\s*\{", body)
+            if not ma:
+                break
+            ae = match(body, ma.end() - 1, "{", "}")
+            mn = re.match(r"\s*(\w+)\s*;", body[ae + 1:])
+            if not mn:
+                raise Break("unsupported nested aggregate in class " + name)
+            members.append((" ".join(body[ma.start():ae + 1].split()), mn.group(1), ""))
+            body = body[:ma.start()] + body[ae + 1 + mn.end():]
+        # inline method bodies inside the class definition: keep the declaration only
+        while True:
+            mi = re.search(r"\)\s*(const\s*)?\{", body)
+            if not mi:
+                break
+            ie = match(body, mi.end() - 1, "{", "}")
+            body = body[:mi.start() + 1] + ";" + body[ie + 1:]
+        for stmt in re.split(r";", body):
             s = " ".join(stmt.split())
             if not s:
                 continue
@@ -119,7 +138,7 @@ def parse_functions(text):
                         params = head[pp + 1:pe]
                         mh = re.match(r"(?:(inline)\s+)?(?:(.*?)\s*)?\b((\w+)::)?(~?\w+)$", pre)
                         if mh:
-                            out.append({"inline": bool(mh.group(1)), "ret": (mh.group(2) or "").strip(), "cls": mh.group(4),
+                            out.append({"inline": bool(mh.group(1)), "ret": re.sub(r"\b(static|inline)\b", "", mh.group(2) or "").strip(), "cls": mh.group(4),
                                         "name": mh.group(5), "params": params, "init": init, "body": body, "const": const})
                 i = e + 1
                 last = i
@@ -237,28 +256,53 @@ def emit(cpp, incdir, leaf, libclasses):
     w("/* GENERATED on this run by engine/arduino_extract.py from %s for class %s (hierarchy: %s).\n"
       "   Method bodies are the preprocessed source text, verbatim. */\n" % (cpp.split("/")[-1], leaf, " : ".join(chain)))
     w("#include <stdint.h>\n#include <stddef.h>\n#include <string.h>\n#include <stdbool.h>\n")
-    w("#define VERIF_CLEAN1(x) memset(&(x), 0, sizeof(x))\n#define VERIF_CLEAN2(p, n) memset((p), 0, (n))\n")
+    # clean(): the two-argument function is taken verbatim from Crypto.cpp; the one-argument template
+    # clean(T &var) { clean(&var, sizeof(T)); } of Crypto.h is expanded at its uses (VERIF_CLEAN1)
+    import os
+    ctext, cmain = preprocess(os.path.join(incdir, "Crypto.cpp"), incdir)
+    cl = [f for f in parse_functions(cmain) if f["cls"] is None and f["name"] == "clean"]
+    if len(cl) != 1:
+        raise Break("clean() not found in Crypto.cpp")
+    w("static void clean(%s)\n%s\n" % (cl[0]["params"], cl[0]["body"]))
+    w("#define VERIF_CLEAN1(x) clean(&(x), sizeof(x))\n#define VERIF_CLEAN2(p, n) clean((p), (n))\n")
     # data members
     state = ctor_state(classes, funcs, leaf, libclasses)
     w("/* ---- data members of %s as file-scope objects ---- */\n" % " : ".join(chain))
     for c in reversed(chain):
         for (ty, nm, dims) in classes[c]["members"]:
+            mt = re.match(r"(\w+)\s*\*$", ty)
+            if mt and mt.group(1) in classes:
+                w("/* %s::%s (pointer to a %s) dropped: calls through it become %s__<method>() */\n" % (c, nm, mt.group(1), mt.group(1)))
+                for (mn, (ret, params)) in classes[mt.group(1)]["methods"].items():
+                    w("#ifndef VC_%s__%s\n#define VC_%s__%s\n#endif\n" % (mt.group(1), mn, mt.group(1), mn))
+                    w("%s %s__%s(%s) VC_%s__%s;\n" % (ret, mt.group(1), mn, params if params.strip() else "void", mt.group(1), mn))
+                continue
             if nm in state and not dims:
                 continue
             w("static %s %s%s;   /* %s::%s */\n" % (ty, nm, dims, c, nm))
     for c in reversed(chain):
         for (ty, nm, dims) in classes[c]["members"]:
+            mt = re.match(r"(\w+)\s*\*$", ty)
+            if mt and mt.group(1) in classes:
+                continue
             if nm in state and not dims:
                 w("static %s %s = %s;   /* %s::%s, as initialised by the constructor chain */\n" % (ty, nm, state[nm], c, nm))
+    if "r" in state:
+        w("#define VERIF_ARD_ROUNDS %s   /* constructor value of r */\n" % state["r"])
+    arrays = [nm for c in chain for (ty, nm, dims) in classes[c]["members"] if dims or ty.startswith(("struct", "union"))]
+    w("#define VERIF_ARD_HAVOC_MEMBERS() do { %s } while (0)   /* arbitrary object state for the proofs */\n"
+      % " ".join("__CPROVER_havoc_object(%s%s);" % ("" if any(nm == n and d for c in chain for (t_, n, d) in classes[c]["members"]) else "&", nm) for nm in arrays))
     # file-local types and constant tables of the .cpp file, verbatim
     w("/* ---- file-scope declarations of the .cpp file (verbatim) ---- */\n")
     for d in other:
         w(d + "\n")
     # helper inline functions (free functions without class)
     w("/* ---- free helper functions ---- */\n")
+    helpers = []
     for f in funcs:
-        if f["cls"] is None and f["inline"]:
-            w("static inline %s %s(%s)\n%s\n" % (f["ret"], f["name"], f["params"], f["body"]))
+        if f["cls"] is None:
+            helpers.append(f)
+    w("@@HELPERS@@")
     # method name map: which class defines each method (most derived wins for unqualified calls)
     defined = {}
     for c in reversed(chain):
@@ -273,7 +317,18 @@ def emit(cpp, incdir, leaf, libclasses):
             if any(d is not None for d in dv):
                 defaults[mn] = dv
 
+    ifaces = {}     # member name -> class name, for members that point to another class (dynamic dispatch)
+    for c in chain:
+        for (ty, nm, dims) in classes[c]["members"]:
+            mt = re.match(r"(\w+)\s*\*$", ty)
+            if mt and mt.group(1) in classes:
+                ifaces[nm] = mt.group(1)
+
     def fix_body(body):
+        # calls through an interface pointer member: p->m(args) becomes Iface__m(args), an external
+        # function (the dynamic dispatch target is not part of this class)
+        for (nm, cl) in ifaces.items():
+            body = re.sub(r"\b%s\s*->\s*(\w+)\s*\(" % nm, lambda m: "%s__%s(" % (cl, m.group(1)), body)
         # qualified base calls
         body = re.sub(r"\b(\w+)::(\w+)\s*\(", lambda m: "%s__%s(" % (m.group(1), m.group(2)) if m.group(1) in chain else m.group(0), body)
         # clean()
@@ -320,7 +375,8 @@ def emit(cpp, incdir, leaf, libclasses):
             defs.append("%s\n%s\n" % (sig, fix_body(f["body"])))
     o += protos
     o += defs
-    return "".join(o)
+    htext = "".join("static inline %s %s(%s)\n%s\n" % (f["ret"], f["name"], f["params"], fix_body(f["body"])) for f in helpers)
+    return "".join(o).replace("@@HELPERS@@", htext)
 
 
 def main():
